@@ -342,6 +342,28 @@ def bounded(rep, tier):
         try: NtcSub().base_m('anything')
         except BeartypeCallHintViolation: fails.append(('ntc_inherited', None, 'ntc_inherited base: the inherited @no_type_check member was decorated'))
     except Exception as e: fails.append(('ntc_inherited', None, f'ntc_harness: {type(e).__name__}: {e}'[:200]))
+    # decoratees that are FALSY (a class whose metaclass defines __len__ and is empty, a callable object with __len__() == 0) are decoratees all the same:
+    # beartype(obj) returns the decorated object (the same class), not the configuration closure meant for beartype(conf=...)
+    try:
+        class _EmptyMeta(type):
+            def __len__(cls): return 0
+        class FalsyCls(metaclass=_EmptyMeta):
+            def m(self, x: int) -> int: return x
+        class FalsyCallable:
+            def __len__(self): return 0
+            def __call__(self, x: int) -> int: return x
+        for label, deco in (('beartype(obj)', beartype), ('beartype(conf=...)(obj)', beartype(conf=BeartypeConf(is_debug=False)))):
+            cases += 1
+            if deco(FalsyCls) is not FalsyCls: fails.append(('falsy', None, f'falsy_decoratee class: {label} of a falsy class did not return that class'))
+        cases += 1
+        try: FalsyCls().m('bad'); fails.append(('falsy', None, 'falsy_decoratee class: members of a falsy class were left undecorated'))
+        except BeartypeCallHintViolation: pass
+        fo = FalsyCallable(); go = beartype(fo); cases += 1
+        try:
+            go('bad'); fails.append(('falsy', None, 'falsy_decoratee callable: a falsy callable object was left undecorated'))
+        except BeartypeCallHintViolation: pass
+        except TypeError as e: fails.append(('falsy', None, f'falsy_decoratee callable: beartype(obj) did not return a decorated callable ({e})'[:160]))
+    except Exception as e: fails.append(('falsy', None, f'falsy_harness: {type(e).__name__}: {e}'[:200]))
     # a class that is merely REFERENCED by a decorated class (here through a staticmethod / classmethod descriptor) is not nested in it
     try:
         class ExtS:
